@@ -16,6 +16,21 @@
  *           around clean reopens the MANIFEST named by CURRENT is replayed by refcodec from
  *           the raw bytes and compared with what the engine reports.
  *
+ * Build: sources fmtmon_edit.c vh.c dbh.c model.c refcodec.c, wrap=() (no iomon).
+ * Violation keys (prop C17): export-import-fields-differ, reexport-bytes-differ,
+ * reference-decoder-fields-differ, export-bytes-differ-from-reference,
+ * reference-encoding-rejected, reference-encoding-fields-differ, import-accepts-malformed,
+ * import-rejects-valid, varint32-encoding-differs, varint64-encoding-differs,
+ * varint-decode-wrong, varint-truncated-accepted, varint-overlong-accepted,
+ * fixed-encoding-differs, lenprefixed-encoding-differs, manifest-replay-error,
+ * manifest-fileset-differs-from-reported-layout, manifest-counter-mismatch,
+ * current-content-wrong, manifest-changed-by-close, reopen-failed,
+ * fileset-changed-across-reopen, compact-pointers-changed-across-reopen.
+ * Oracle notes: refcodec accepts internal keys of 1..7 bytes (upstream's "non-empty"
+ * test); the format says user key + 8-byte trailer, lcdb rejects < 8, and agree() below
+ * adjudicates < 8 as malformed.  refcodec keeps comparator names in char[256]: generated
+ * names are <= 255 bytes without NUL.
+ *
  * Type worlds: this file needs lcdb INTERNAL headers (ldb_edit_t, coding.h ...).  They
  * define the same struct tags as the public <lcdb.h>, so the two cannot meet in one
  * translation unit.  Like /repo/test/t-db.c we therefore use internal headers only and
@@ -1451,7 +1466,7 @@ static int rp_check(rp_t *R, const char *why, msnap_t *keep) {
 
   /* file set vs the layout the engine reports */
   if (!dbh_layout(R->h.db, &l)) vh_fatal("leveldb.sstables not served");
-  qsort(l.files, l.n, sizeof(lfile_t), lfile_cmp);
+  if (l.n > 1) qsort(l.files, l.n, sizeof(lfile_t), lfile_cmp);
   if (l.n != s.m.nfiles) {
     rv(R, "manifest-fileset-differs-from-reported-layout", why, "MANIFEST-%06llu replays to %zu live files, the database reports %zu (%s):\n%s",
        (unsigned long long)s.manifest_number, s.m.nfiles, l.n, layout_sig(&l), l.raw);
